@@ -603,9 +603,14 @@ class Ref:
                         for i in range(n):
                             newcells[i].append(rv.rows[i].cells[j])
                     continue
+                if name is None and e.k != "col":
+                    if k != "select":
+                        raise Unsupported("unnamed computed column outside select")
+                    newcols.append(Col(None, None))           # an expression without a name: an unnamed column of the frame
+                    for i in range(n):
+                        newcells[i].append(self.ev(e, rv, i, win))
+                    continue
                 if name is None:
-                    if e.k != "col":
-                        raise Unsupported("unnamed computed column")
                     j = self.resolve(rv, e.a[0])
                     if has_star and dedup and j in taken:
                         continue
@@ -691,7 +696,8 @@ class Ref:
             right = self.table(t.right) if isinstance(t.right, str) else self.pipeline(t.right)
             if len(right.cols) != len(rv.cols):
                 raise Unsupported("append arity")
-            return RelVal([Col(c.name, None) for c in rv.cols], rv.rows + right.rows, None)
+            # a column takes its name from the top relation; where the top column has none, from the bottom relation
+            return RelVal([Col(c.name if c.name else rc.name, None) for c, rc in zip(rv.cols, right.cols)], rv.rows + right.rows, None)
         raise ValueError(k)
 
     def _aliased(self, rv, alias):
